@@ -747,6 +747,23 @@ func main() {
 	for _, d := range fixedBvh() {
 		addBvh(d)
 	}
+	if *bvhMin {
+		// negative lower bounds: the hits lie behind the ray's origin (the box tests must use min, not 0)
+		var verts [][3]float64
+		var idx []int
+		for _, z := range []float64{5, 1, 3, 9, 7} {
+			k := len(verts)
+			verts = append(verts, [3]float64{-4, -4, z}, [3]float64{4, -4, z}, [3]float64{0, 6, z})
+			idx = append(idx, k, k+1, k+2)
+		}
+		for seed := int64(1); seed <= 3; seed++ {
+			addBvh(bvhDesc{Verts: verts, Idx: idx, O: [3]float64{0, 0, 20}, Dir: [3]float64{0, 0, 1}, Lo: -40, Hi: 1e6, Seed: seed})
+			addBvh(bvhDesc{Verts: verts, Idx: idx, O: [3]float64{0, 0, 20}, Dir: [3]float64{0, 0, 1}, Lo: -12, Hi: -10.5, Seed: seed})
+			addBvh(bvhDesc{Verts: verts, Idx: idx, O: [3]float64{0, 0, 4}, Dir: [3]float64{0, 0, 1}, Lo: -2.5, Hi: 1e6, Seed: seed, Direct: true, Pad: [2]int{1, 0}})
+			addBvh(bvhDesc{Spheres: []sphDesc{{C0: [3]float64{0, 0, -10}, C1: [3]float64{0, 0, -10}, R: 2}, {C0: [3]float64{0, 0, -30}, C1: [3]float64{0, 0, -30}, R: 5}},
+				O: [3]float64{0, 0.5, 0}, Dir: [3]float64{0, 0, 1}, Lo: -40, Hi: 1e6, Seed: seed})
+		}
+	}
 	if *emptyStrip {
 		for _, depth := range []int{-1, 0, 2} {
 			for _, atr := range []string{"", "Rest"} {
